@@ -25,6 +25,13 @@ CHECKS = {
         "level_note": "interleavings are those the Go scheduler produced on 16 cores in this run (counter histories_with_overlap), not all; porcupine timeouts are inconclusive",
         "design_ref": "3/C29",
     },
+    "C19": {
+        "level": "exploration",
+        "technique": "runtime monitoring in virtual time (testing/synctest): exact timestamped callback/Done log compared with a reference schedule simulation",
+        "level_text": "A few thousand retry/timeout schedules (all RetryCount 0-5 x four delays x 0-3 progress events x three endings) run on the real transactions with a fake clock; the oracle is the exact virtual-time event list, so off-by-one retry counts, wrong delays and missing resets are all visible.",
+        "level_note": "events are never placed on a timer tick (ties are C18's subject); the fake clock is Go's synctest",
+        "design_ref": "3/C19",
+    },
     "C20": {
         "level": "exploration",
         "crash_is_violation": True,
